@@ -88,6 +88,20 @@ func (s *Server) manifestDelete(repoStr, arg string) http.HandlerFunc {
 				s.log.Info("failed to delete entry from referrers response", "repo", repoStr, "arg", arg, "err", err)
 			}
 		}
+		// the children of an index were moved out of the top level list when the index was pushed, put those
+		// that are still recorded as its children back before the index goes, or they are no longer listed anywhere
+		if types.MediaTypeIndex(desc.MediaType) && !types.RefTagRE.MatchString(arg) {
+			if rdr, err := repo.BlobGet(desc.Digest); err == nil {
+				mi := types.Index{}
+				err = json.NewDecoder(rdr).Decode(&mi)
+				_ = rdr.Close()
+				for _, child := range mi.Manifests {
+					if cd, errChild := index.GetDesc(child.Digest.String()); err == nil && errChild == nil {
+						_ = repo.IndexInsert(cd)
+					}
+				}
+			}
+		}
 		// delete the digest or tag
 		err = repo.IndexRemove(desc)
 		if err != nil {
